@@ -9,6 +9,7 @@ RULE = ('one record per (type, version, t, m, p, T, pwd, salt, key, aad, entry p
 ASSUMPTIONS = ['pure-Python RFC 9106 model pinned by the RFC section 5 vectors; BLAKE2b from hashlib']
 FLOORS = {'evaluations': 250, 'distinct': 200, 'coverage': {'extreme-j1-low': 2, 'm%4p!=0:indep': 15, 'T>64:T%32==0': 10, 'version:0x10:t>1': 10, 'lanes>1': 40, 'builder:repeated-setter': 5, 'builder:p-after-m': 5, 'segment>128:i': 1, 'segment>128:id': 1}}
 THOROUGH_ROUNDS = 8   # thorough tier: generator passes with derived seeds (runner.gen_rounds)
+EXTRA_CFGS = ['f32']   # the workload is also executed by the force-32bits build of the library; results must not change (runner.standard_check)
 ARR_T = [4, 5, 16, 31, 32, 33, 63, 64, 65, 95, 96, 97, 128, 160, 300]
 TYPES = {'d': 0, 'i': 1, 'id': 2}
 
@@ -94,6 +95,12 @@ def gen(tier, seed):
         for ty in ('i', 'id', 'd'):
             for ver, m, p in ((0x13, 516 + rng.rng(0, 40), 1), (0x10, 520 + rng.rng(0, 100), 1), (0x13, 1040 + rng.rng(0, 30), 2)):
                 yield case(rng, ty, ver, 2 if m < 600 else 1, m, p, 32, 'at')
+    # volume for the data-DEPENDENT addressing (Argon2d, second half of Argon2id): J1 is pseudo-random per block, so the rounding edges of
+    # the reference-area mapping (J1 within 2^16 of 0 or 2^32) are reached about once per 2^15 blocks
+    for _ in range(3000 if thorough else 500):
+        p_ = rng.choice([1, 1, 2, 4])
+        m = rng.rng(8 * p_, 8 * p_ + 200)
+        yield case(rng, rng.choice(['d', 'd', 'id']), rng.choice([0x13, 0x13, 0x10]), rng.rng(1, 3), m, p_, 32, 'at', plen=8) + ' #volume-data-dependent'
     # Params built by setter histories: setters in any order, some called several times; every intermediate state stays inside
     # the documented domain (m >= 8 p), so the final values alone determine the function
     for _ in range(160 if thorough else 40):
@@ -161,7 +168,7 @@ def classify(line):
 def coverage(line, toks):
     body, _, ann = line.partition(' #')
     f = body.split()
-    if ann:
+    if ann.startswith('extreme'):
         return [ann]
     if f[0] == 'argon2b':
         ks = [x[0] for x in f[8:]]
@@ -181,6 +188,8 @@ def coverage(line, toks):
         out.append('lanes>1')
     if (m // (4 * p)) > 128:
         out.append('segment>128:%s' % ty)
+    if ann:
+        out.append(ann)
     return out
 
 
